@@ -6,6 +6,12 @@ E: the transformations AsFunctionBody, AsModule, WrapIIFE (single sub-expression
    under the transformation's result mapping (this validates that the *documented* semantics is
    placement invariant on these programs - closures inside global-scope loops, the one documented
    scope-dependent case, are not generated).
+E2: SymbolTable.tla - the compiler's symbol table (the component that decides where a variable
+   lives) as a state machine over Define/Resolve/assign/Fork/leave with the invariants the
+   rest of the system relies on (lexical resolution across any block/function boundaries, no two
+   live variables of a function in one slot, frames large enough, global slots never reused,
+   free lists the enclosing function can serve); TLC prints one witness history per edge.
+R2: every witness history replayed on a real tengo.SymbolTable, every return value compared.
 R: every variant through the real compiler and VM: its outcome must be one TengoSem allows for it,
    hence all placements (globals / locals / captured variables / module locals) agree with each
    other.  The probe counts which variable-instruction families each variant exercised.
@@ -91,6 +97,7 @@ def run(ck):
             ck.add_sample({"base": base["src"], "variant_fn_iife": [q["src"] for q in grp if q["variant"] == "fn+iife"][0][:1500]})
     ck.extra["bases"] = len(groups)
     ck.extra["variants_agreeing"] = fam_counts
+    symtab(ck, quick)
     # placement in slots whose index needs more than one byte (more than 255 globals, also as block variables)
     largelib.judge(ck, quick)
     ck.rule = ("base programs (random-clean without closures in global loops, dce) x {function body, module body, IIFE of 3 random "
@@ -98,6 +105,65 @@ def run(ck):
     ck.assumptions = ["the transformations are applied to the harness AST; that they preserve the documented meaning is itself checked by TLC per program"]
 
 
+SYMTAB_CFG = """SPECIFICATION Spec
+CONSTANTS
+  Names <- %s
+  MaxDepth = %d
+  MaxLen = %d
+VIEW View
+CONSTRAINT Bounded
+ACTION_CONSTRAINT EmitEdge
+INVARIANTS LiveLocalsDisjoint FrameCovers GlobalsUnique GlobalsCounted FreeServed FreeIndexed Lexical Reach ResolveStable
+"""
+
+
+def symtab(ck, quick):
+    runs = [("MCNames2", 4, 7)] if quick else [("MCNames2", 5, 9), ("MCNames3", 4, 7)]
+    cases = []
+    seen = set()
+    for names, depth, length in runs:
+        r = ck.tlc("SymbolTable", SYMTAB_CFG % (names, depth, length), workers=1, name="symtab-%s-%d" % (names, length), timeout=3000, xmx="12g")
+        if r.violated:
+            raise vlib.Infra("SymbolTable.tla violates %s:\n%s" % (r.violated, r.stdout[-2000:]))
+        for c in r.tagged("CASE"):
+            key = json.dumps(c, sort_keys=True)
+            if key in seen:
+                continue
+            seen.add(key)
+            c["id"] = len(cases)
+            cases.append(c)
+        ck.log("SymbolTable.tla (%s, depth %d, %d calls): %d abstract states, %d witness histories so far" % (names, depth, length, r.distinct, len(cases)))
+    res = vlib.run_cases(ck, "symtab", cases, nproc=12)
+    edges = {}
+    for c in cases:
+        o = res[c["id"]]
+        ck.evaluations += 1
+        last = c["calls"][-1]
+        if o.get("hang") or o.get("died") or o.get("panic"):
+            ck.violation("symtab-down:" + last["op"], "symbol table history did not return / panicked: %s" % json.dumps(c["calls"])[:600], {"symtab": c, "real": o})
+            continue
+        if o.get("error"):
+            raise vlib.Infra("symtab driver: %s" % o["error"])
+        if not o["ok"]:
+            call = c["calls"][o["at"]]
+            ck.violation("symtab:" + call["op"],
+                         "call %d %s%s returned %s, SymbolTable.tla says %s; history: %s" % (
+                             o["at"], call["op"], json.dumps(call["args"]), json.dumps(o["got"]), json.dumps(o["want"]),
+                             " ".join("%s%s" % (x["op"], json.dumps(x["args"])) for x in c["calls"][:o["at"] + 1]))[:900],
+                         {"symtab": c, "real": o})
+            continue
+        ck.traces += 1
+        edges[last["op"]] = edges.get(last["op"], 0) + 1
+        ck.note_distinct("symtab/" + json.dumps(c["calls"][-1], sort_keys=True))
+    ck.extra["symtab_edges_by_call"] = edges
+
+
 def replay(ck, path):
+    rep = json.load(open(path))["replay"]
+    if "symtab" in rep:
+        c = rep["symtab"]
+        c["id"] = 0
+        print(json.dumps(vlib.run_cases(ck, "symtab", [c], nproc=1)[0], indent=1))
+        return 0
     import c01
     return c01.replay(ck, path)
